@@ -2110,8 +2110,15 @@ func (k *Kernel) handleReplayedHeader(
 	}
 
 	// Store the updated proofs back into the long-lived local set.
+	// The per-block versions must move too:
+	// a concurrent HandlePrecommitProofs call that started from the older proofs
+	// must see a conflict, instead of overwriting the replayed precommits with its smaller proof.
+	if s.Voting.PrecommitBlockVersions == nil {
+		s.Voting.PrecommitBlockVersions = make(map[string]uint32, len(tempProofs))
+	}
 	for hash, proof := range tempProofs {
 		s.Voting.PrecommitProofs[hash] = proof
+		s.Voting.PrecommitBlockVersions[hash]++
 	}
 
 	// Since we are in a replay, we clearly had out-of-date precommit power.
